@@ -469,6 +469,21 @@ class LemmaChain:
         the implementation built but multiplied by a zero count are still available as auxiliary atoms."""
         d = self.d
         t = self.t
+        # selections torch.where(c, a, b) whose condition is decided on the whole region are replaced by the selected
+        # branch (the solver proves c or not c under the region's hypotheses); indicator factors ite(c, 1, 0) are kept, so a
+        # term multiplied by a zero mask still has to be well defined
+        sel = {}
+        for n in d.topo([I]):
+            if d.ops[n] == 'ite':
+                c, a, b = d.args[n]
+                if d.ops[a] == 'const' and d.ops[b] == 'const':
+                    continue
+                c2 = d.substitute([c], sel)[0] if sel else c
+                holds = bool(d.vals[c2])
+                if self.prove(f'selection #{n} takes the same branch on the whole region', c2 if holds else d.not_(c2), hyps=[]):
+                    sel[n] = d.substitute([a if holds else b], sel)[0] if sel else (a if holds else b)
+        if sel:
+            I = d.substitute([I], sel)[0]
         goal = d.eq(I, O)
         cone = set(d.topo([goal]))  # sub-expressions the result actually depends on
         self.aux_logs = []
